@@ -97,6 +97,8 @@ class Explorer:
                 self.by_target[c.target] = c
         self.invariants = invariants
         self.types = TypeParser(index, ['fpy2.number', 'fpy2.utils', 'fpy2', 'fpy2.ast', 'fpy2.analysis'])
+        # stand-in classes for external objects (Python ast nodes) live in spec modules; searched last
+        self.types.default_modules += [m for m in ('spec.c06',) if index.module(m) is not None]
         self.intrinsics = Intrinsics(self)
         self.global_cache = {}
         self.tags = Tags()
@@ -242,8 +244,15 @@ class Explorer:
                 obj.fields[f] = Lazy(ft, f'{nm}.{f}')
             result = obj
         else:
-            rt = self.types.parse_str(c.returns, info.module.name, info.cls)
-            result = P.fresh(rt, P.fresh_name(short))
+            ri = c.opts.get('result_is')
+            if ri:
+                # (trusted contracts only) the result IS the object at this path of the arguments, e.g. a ghost field
+                if not c.trusted:
+                    raise InterpError('option result_is is only allowed on trusted contracts')
+                result = self._resolve_path(P, bound, ri)
+            else:
+                rt = self.types.parse_str(c.returns, info.module.name, info.cls)
+                result = P.fresh(rt, P.fresh_name(short))
         if c.post is not None:
             extra = {'result': result}
             if needs_old:
